@@ -15,7 +15,27 @@ def run_stack(case):
     log = []
     n = {"cond": 0}
 
+    class ForeignObject:
+        """a class-based decorator: a callable object that exposes __wrapped__ and the metadata, but does not copy the
+        wrapped function's __dict__ (so none of the library's attributes travel up)"""
+
+        def __init__(self, fn, g):
+            self.__wrapped__ = fn
+            self.g = g
+            for a_ in ("__name__", "__qualname__", "__doc__", "__module__", "__annotations__"):
+                try:
+                    setattr(self, a_, getattr(fn, a_))
+                except AttributeError:
+                    pass
+
+        def __call__(self, *a, **k):
+            log.append(["foreign", self.g])
+            return self.__wrapped__(*a, **k)
+
     def mk_foreign(g):
+        if case.get("foreignKind") == "object" and not case["async"]:
+            return lambda fn: ForeignObject(fn, g)
+
         def deco(fn):
             if inspect.iscoroutinefunction(fn):
                 @functools.wraps(fn)
@@ -127,6 +147,7 @@ def build_class(spec, decorated):
     elif spec["init"] == "args":
         lines.append("    def __init__(%s, a, b=2):\n        %s.a = a" % (r, r))
     lines.append("    def m(%s, x=1):\n        return x + 1" % r)
+    lines.append("    m.custom_attribute = 'kept'")
     lines.append("    @property\n    def p(%s):\n        return 5" % r)
     # public operations that use other public operations of the same object (sync and async)
     lines.append("    def chain(%s):\n        return %s.m(2) + %s.p" % (r, r, r))
@@ -145,7 +166,7 @@ def build_class(spec, decorated):
             lines.append("    def __init__(self):\n        super().__init__(%s)\n        self.b = 0" % ("7" if spec["init"] == "args" else ""))
         else:
             lines.append("    pass")
-        if spec["abstract"]:
+        if spec["abstract"] and not spec.get("sub_leaves_abstract"):
             lines.append("    def am(self):\n        return 1")
         lines.append("    def extra(self):\n        return 2")
     src = "\n".join(lines) + "\n"
@@ -185,6 +206,8 @@ def probe_class(ns, spec):
         out["S(kw)"] = _try(lambda: S(q=9).b) if spec["sub"] == "init_args" else None
         out["isabstract_S"] = inspect.isabstract(S)
     out["name"] = [K.__name__, K.__qualname__, K.__module__]
+    out["custom_attribute"] = getattr(inspect.getattr_static(K, "m"), "custom_attribute", None)
+    out["isabstractmethod_flags"] = [getattr(inspect.getattr_static(K, n, None), "__isabstractmethod__", False) for n in ("am", "m")]
     return out
 
 
